@@ -99,6 +99,15 @@ def export_schema(b, segs=()):
     return msgs
 
 
+# `./check C44 --replay FILE` re-validates a recorded event with Trace_FieldMaskAlg, which reads the schema file: provide it.
+import sys as _sys
+if len(_sys.argv) > 2 and _sys.argv[1] == "C44" and "--replay" in _sys.argv:
+    try:
+        export_schema(build_harness(("wkt",)))
+    except Exception as _e:                      # the replay itself will report what is wrong
+        vlib.log("C44 replay: schema export failed: %r" % (_e,))
+
+
 @check("C44")
 def c44(res, tier, seed):
     b = build_harness(("wkt",))
